@@ -545,12 +545,14 @@ func (P *Prog) checkIndexAgreement(r *Result) {
 		}
 		r.sawFunc(fname(fn))
 		c := fname(fn)
-		ca := P.newCatchAnalysis()
+		_ = P.newCatchAnalysis
 		// the loop containing the child dispatch
 		var disp ssa.Instruction
 		eachInstr(fn, func(_ *ssa.BasicBlock, _ int, in ssa.Instruction) {
-			if ci := callOf(in); ci != nil && ci.invoke != nil {
-				if _, ok := ca.dispatchCallee(ci); ok {
+			// the child is run by an interface call of the node method, or by a helper that is handed the child
+			// context and runs it (`subCtx.RunChild(&k, item, ptr, typ, v.schema.process)`)
+			if ci := callOf(in); ci != nil && (ci.invoke != nil || ci.static != nil) && P.dispatchLike(ci) {
+				if _, isNodeCall := R.Dispatch[ci.static]; !isNodeCall {
 					disp = in
 				}
 			}
